@@ -347,6 +347,11 @@ func genWith(fill bool) func(rt *rapid.T) Case {
 				nXMP++
 			case k == 4:
 				s = gen.Seg{Marker: 0xE1, Payload: append([]byte(gen.XMPExtPrefix), rapid.SliceOfN(rapid.Byte(), 40, 300).Draw(rt, "xmpext")...), Kind: "xmpext"}
+			case k == 5 && gen.Chance(rt, "exifstub?", 0.5):
+				// an APP1 segment that carries the Exif identifier and less than a TIFF header (0..7 bytes): it holds no Exif
+				// block, and the eight bytes a reader would take for the header belong to the next segment
+				stub := []byte("II*\x00\x08\x00\x00\x00")[:rapid.IntRange(0, 7).Draw(rt, "stublen")]
+				s = gen.Seg{Marker: 0xE1, Payload: append([]byte(gen.ExifPrefix), stub...), Kind: "exifstub"}
 			case k == 5:
 				s = gen.Seg{Marker: byte(rapid.SampledFrom([]int{0xC0, 0xC1, 0xC2}).Draw(rt, "sof")), Payload: []byte{8, 0, 16, 0, 16, 1, 1, 0x11, 0}, Kind: "sof"}
 			case k == 6 && gen.Chance(rt, "maxlen?", 0.4):
